@@ -22,6 +22,13 @@ pub broadcast axiom fn instant_lt_ax(a: Instant, b: Instant)
     ensures <Instant as PartialOrdSpec<Instant>>::obeys_partial_cmp_spec(),
        #[trigger] a.partial_cmp_spec(&b) == Some(if a.t < b.t { core::cmp::Ordering::Less } else if a.t == b.t { core::cmp::Ordering::Equal } else { core::cmp::Ordering::Greater });
 pub broadcast axiom fn timeout_cmp_ax() ensures #[trigger] vstd::laws_cmp::obeys_cmp_spec::<Timeout>();
+// TRUSTED std contract (not used by the pinned timer.rs; lets a change that uses it be judged): BTreeMap::pop_first removes and returns some entry of a non-empty
+// map (that it is the smallest key is not stated: no claimed clause depends on the order in which queued entries are promoted)
+pub assume_specification<K, V, A> [std::collections::BTreeMap::<K, V, A>::pop_first] (m: &mut std::collections::BTreeMap<K, V, A>) -> (r: std::option::Option<(K, V)>)
+    where K: std::cmp::Ord, A: std::alloc::Allocator + std::clone::Clone
+    ensures
+        r is None ==> final(m)@ == old(m)@ && (forall|k: K| !old(m)@.contains_key(k)),
+        r is Some ==> ({ let kv = r->0; old(m)@.contains_key(kv.0) && old(m)@[kv.0] == kv.1 && final(m)@ == old(m)@.remove(kv.0) });
 pub struct Sleep { pub deadline: Instant }
 impl Sleep { #[verifier::external_body] pub fn deadline(&self) -> (r: Instant) ensures r == self.deadline { unimplemented!() } }
 // CurrentTimerEntry: `sleep: Pin<Box<Sleep>>` in the repository; the stand-in keeps the three fields with Sleep unboxed
